@@ -307,13 +307,13 @@ theorem formatChar_assert (f : FormatSpec) (hp : f.minimumLength ≠ 0 ∨ f.pad
 /-! ### floating point -/
 
 theorem formatFloat_flatten (f : FormatSpec) (hf : SpecInt f) (r : Bool → Option Nat → FloatClass → List Nat)
-    (hfl : (Arg.float r).FloatFits) : (formatFloat f r).map flatten = .ok (Render.renderFloat f r) := by
+    (hfl : (Arg.float r).LibcRenders) : (formatFloat f r).map flatten = .ok (Render.renderFloat f r) := by
   obtain ⟨⟨h1, h2⟩, _⟩ := hf
   have h := hfl f.alwaysSigned (if f.precision ≥ 0 then some f.precision.toNat else none) f.floatClass
   unfold formatFloat Render.renderFloat
   simp only [padOf_eq]
   generalize r f.alwaysSigned (if f.precision ≥ 0 then some f.precision.toNat else none) f.floatClass = text at h ⊢
-  rw [if_neg (by omega), if_neg (by omega)]
+  rw [if_neg (by omega)]
   unfold Render.padTo Render.sideOf
   by_cases hw : f.minimumLength > (text.length : Int)
   · simp only [hw, if_true]
@@ -360,9 +360,9 @@ theorem pow_bound {w : Nat} (hw : w = 8 ∨ w = 16 ∨ w = 32 ∨ w = 64) : (2 :
   rcases hw with rfl | rfl | rfl | rfl <;> decide
 
 /-- **every formatter emits the specified rendering** (all eight integer types, the five character
-    types, booleans, every narrow string type, null strings, floating point with a rendering that
-    fits), for every spec the parser can produce -/
-theorem formatType_eq_spec (a : Arg) (f : FormatSpec) (ha : a.InRange) (hf : SpecInt f) (hfl : a.FloatFits) :
+    types, booleans, every narrow string type, null strings, floating point with a rendering of any
+    length), for every spec the parser can produce -/
+theorem formatType_eq_spec (a : Arg) (f : FormatSpec) (ha : a.InRange) (hf : SpecInt f) (hfl : a.LibcRenders) :
     (formatType a f).map flatten = Render.renderField f a := by
   cases a with
   | sint w v =>
